@@ -95,6 +95,11 @@ class SimRaw(io.RawIOBase):
         self._pos += n or 0
         return n
 
+    def truncate(self, size=None):
+        if size is None:
+            size = self._pos
+        return self.fs.raw_truncate(self, size)
+
     def close(self):
         if self._sim_closed:
             return
@@ -133,6 +138,7 @@ class SimFS:
                 "open": ("open_fail", "crash"),
                 "write": ("write_fail", "short", "crash"),
                 "close": ("close_fail", "crash"),
+                "truncate": ("crash",),
                 "rename": ("rename_fail", "crash"),
                 "remove": ("remove_fail", "crash"),
                 "fsync": ("fsync_fail", "crash"),
@@ -280,6 +286,19 @@ class SimFS:
             if pos > len(buf):
                 buf += b"\0" * (pos - len(buf))
             buf[pos:pos + len(data)] = data
+
+    def raw_truncate(self, raw, size):
+        if raw.gen != self.gen:
+            return size
+        fk = self._enter("truncate", raw.path, size)
+        if fk == "crash":
+            self._crash()
+        buf = self.files.setdefault(raw.path, bytearray())
+        if size < len(buf):
+            del buf[size:]
+        else:
+            buf += b"\0" * (size - len(buf))
+        return size
 
     def raw_close(self, raw):
         if raw.gen != self.gen:
